@@ -6,6 +6,7 @@ PLAN = dict(
           "into the corresponding Encoder call sequence; the output must decode (independent RFC 8949 decoder) to exactly the tree, be in "
           "deterministic form (shortest heads, keys strictly ascending bytewise), be identical for all caller orders; invalid UTF-8 -> "
           "ErrInvalidUTF8 with nothing written, equal keys -> ErrDuplicatedKey, no error otherwise. ints: one encoder call per boundary value, "
+          "The shape sweep includes key sets (text / byte strings of 1..400 octets) that differ in one octet at every position, plus the key cut short and extended. "
           "exact expected bytes. Non-trivial: the tree contains a map with >= 2 keys of different encoded lengths or an integer within +-3 of "
           "a head-size boundary; distinct by fingerprint of the case."),
     assumptions=TRUSTED + ["What the writer holds after a refused call sequence (ErrInvalidUTF8 / ErrDuplicatedKey) is unspecified and not compared, "
